@@ -5,6 +5,9 @@ import MsmVerif.Driver.JsonUtil
 import MsmVerif.Model.Coring
 import MsmVerif.Model.Msm
 import MsmVerif.Model.Events
+import MsmVerif.Model.Mcmc
+import MsmVerif.Model.Compare
+import MsmVerif.Model.Relabel
 
 open Lean
 
@@ -93,6 +96,190 @@ def opMdPaths (j : Json) : Except String Json := do
     return Json.mkObj (base ++ [("holds", Json.bool (Events.holdsPaths ts start final obs))])
   | .error _ => return Json.mkObj base
 
+def natMat? (j : Json) : Except String (List (List Nat)) := do (← arr? j).mapM nats?
+
+/-- C07: judge the real cumulative matrix of an estimated model -/
+def opCummatJudge (j : Json) : Except String Json := do
+  let ts ← trajs? (← field j "trajs")
+  let lag ← nat? (← field j "lag")
+  let cum ← ratMat? (← field j "cum")
+  let perm ← natMat? (← field j "perm")
+  match Msm.estimate ts lag with
+  | .error e => return Json.mkObj [("model", Json.mkObj [("err", Json.str e.name)]), ("holds", Json.bool false)]
+  | .ok (_, T, _) =>
+    let exact := (List.range T.length).map (fun i => Mcmc.cumRow (T.getD i []) (perm.getD i []))
+    return Json.mkObj [("model", Json.mkObj [("ok", ofRatMat exact)]), ("holds", Json.bool (Mcmc.holdsCummat T cum perm))]
+
+/-- C07: judge the cumulative matrix `propagate_tmat` builds from a user matrix -/
+def opTmatCumJudge (j : Json) : Except String Json := do
+  let T ← ratMat? (← field j "T")
+  let cum ← ratMat? (← field j "cum")
+  let perm ← natMat? (← field j "perm")
+  let exact := (Msm.rowNormalizeQ T).map Mcmc.cumsum
+  return Json.mkObj [("model", Json.mkObj [("ok", ofRatMat exact)]), ("holds", Json.bool (Mcmc.holdsCumTmat T cum perm))]
+
+/-- C07: chain for given cumulative matrix, start index, length and draws -/
+def opChain (j : Json) : Except String Json := do
+  let cum ← ratMat? (← field j "cum")
+  let perm ← natMat? (← field j "perm")
+  let start ← nat? (← field j "start")
+  let steps ← nat? (← field j "steps")
+  let us ← rats? (← field j "us")
+  let sts ← ints? (← field j "states")
+  let model := (Mcmc.chain cum perm start steps us).map (fun (i : Nat) => labelOf sts (i : Int))
+  let base := [("model", Json.mkObj [("ok", ofInts model)])]
+  match j.getObjVal? "obs" with
+  | .ok o =>
+    let obs ← except? ints? o
+    let h := match obs with
+      | .ok l => Mcmc.holdsChain cum perm sts start steps us l
+      | .error _ => false
+    return Json.mkObj (base ++ [("holds", Json.bool h)])
+  | .error _ => return Json.mkObj base
+
+/-- C08: the msm event loops on the realised chain; `kind` = "wt" | "tt" -/
+def opMsmTimes (j : Json) : Except String Json := do
+  let cum ← ratMat? (← field j "cum")
+  let perm ← natMat? (← field j "perm")
+  let start ← nat? (← field j "start")
+  let steps ← nat? (← field j "steps")
+  let us ← rats? (← field j "us")
+  let S ← ints? (← field j "S")
+  let F ← ints? (← field j "F")
+  let lag ← nat? (← field j "lag")
+  let kind ← str? (← field j "kind")
+  let xs := (Mcmc.realised cum perm start steps us).map (fun (i : Nat) => (i : Int))
+  let h := if kind == "wt" then Events.msmWtLoop S F xs else Events.msmTtLoop S F xs
+  let lst := Events.histList h lag
+  let (dens, edges) := Events.histDensity h lag
+  return Json.mkObj [("model", Json.mkObj [("ok", Json.mkObj [
+    ("chain", ofInts xs), ("hist", ofList (fun (e : Nat × Nat) => Json.arr #[ofNat e.1, ofNat e.2]) h),
+    ("list", ofNats lst), ("density", ofRats dens), ("edges", ofNats edges)])]), ("holds", Json.bool true)]
+
+/-- C13: `compare_discretization` -/
+def opCompare (j : Json) : Except String Json := do
+  let t1 ← trajs? (← field j "t1")
+  let t2 ← trajs? (← field j "t2")
+  let m ← nat? (← field j "method")
+  let model := Compare.compare t1 t2 m
+  let base := [("model", ofExcept ofRat model)]
+  match j.getObjVal? "obs" with
+  | .ok o =>
+    let obs ← except? rat? o
+    return Json.mkObj (base ++ [("holds", Json.bool (Compare.holds t1 t2 m obs))])
+  | .error _ => return Json.mkObj base
+
+def shape? (j : Json) : Except String Relabel.Shape := do
+  let k ← str? (← field j "kind")
+  match k with
+  | "flat" => return .flat
+  | "mat" => return .mat (← nat? (← field j "rows")) (← nat? (← field j "cols"))
+  | "ragged" => return .ragged (← nats? (← field j "lens"))
+  | _ => throw "bad shape"
+
+def ofShape : Relabel.Shape → Json
+  | .flat => Json.mkObj [("kind", "flat")]
+  | .mat r c => Json.mkObj [("kind", "mat"), ("rows", ofNat r), ("cols", ofNat c)]
+  | .ragged l => Json.mkObj [("kind", "ragged"), ("lens", ofNats l)]
+
+def data? (j : Json) : Except String Relabel.Data := do
+  return { vals := ← ints? (← field j "vals"), shape := ← shape? (← field j "shape") }
+
+def ofData (d : Relabel.Data) : Json := Json.mkObj [("vals", ofInts d.vals), ("shape", ofShape d.shape)]
+
+/-- C15: `shift_data` -/
+def opShift (j : Json) : Except String Json := do
+  let d ← data? (← field j "data")
+  let old ← ints? (← field j "old")
+  let new ← ints? (← field j "new")
+  let model := Relabel.shiftData d old new
+  let base := [("model", ofExcept ofData model), ("guard", Json.bool (Relabel.guardOk d.vals old new))]
+  match j.getObjVal? "obs" with
+  | .ok o =>
+    let obs ← except? data? o
+    return Json.mkObj (base ++ [("holds", Json.bool (Relabel.holdsShift d old new obs))])
+  | .error _ => return Json.mkObj base
+
+def dataPerm? (v : Json) : Except String (Relabel.Data × List Int) := do
+  return (← data? (← field v "data"), ← ints? (← field v "perm"))
+
+def ofDataPerm (r : Relabel.Data × List Int) : Json := Json.mkObj [("data", ofData r.1), ("perm", ofInts r.2)]
+
+/-- C15: `rename_by_index` / `rename_by_population` / `unique` -/
+def opRename (j : Json) : Except String Json := do
+  let d ← data? (← field j "data")
+  let kind ← str? (← field j "kind")
+  let obs ← except? dataPerm? (← field j "obs")
+  match kind with
+  | "index" =>
+    return Json.mkObj [("model", ofExcept ofDataPerm (Relabel.renameByIndex d)),
+      ("holds", Json.bool (Relabel.holdsRenameIndex d obs))]
+  | "population" =>
+    let perm := match obs with | .ok (_, p) => p | .error _ => []
+    return Json.mkObj [("model", ofExcept ofDataPerm (Relabel.renameByPopulationWith d perm)),
+      ("holds", Json.bool (Relabel.holdsRenamePop d obs))]
+  | _ => throw "bad rename kind"
+
+def opUnique (j : Json) : Except String Json := do
+  let d ← data? (← field j "data")
+  let (s, c) := Relabel.uniqueCounts d
+  return Json.mkObj [("model", Json.mkObj [("ok", Json.mkObj [("states", ofInts s), ("counts", ofNats c)])]),
+    ("holds", Json.bool true)]
+
+/-- C07: public `propagate_MCMC(trajs, lag, steps, start)` with injected draws; `obs.ok` carries the captured
+cumulative matrix, the permutation and the returned chain -/
+def opMcmcPublic (j : Json) : Except String Json := do
+  let ts ← trajs? (← field j "trajs")
+  let lag ← nat? (← field j "lag")
+  let steps ← nat? (← field j "steps")
+  let startLabel ← int? (← field j "start")
+  let us ← rats? (← field j "us")
+  match Msm.estimate ts lag with
+  | .error e => return Json.mkObj [("model", Json.mkObj [("err", Json.str e.name)]), ("holds", Json.bool false)]
+  | .ok (_, T, sts) =>
+    let valid := sts.contains startLabel
+    let obsJ ← field j "obs"
+    match obsJ.getObjVal? "err" with
+    | .ok e =>
+      let en ← str? e
+      return Json.mkObj [("model", Json.mkObj [("err", Json.str (if valid then "none" else "ValueError"))]),
+        ("holds", Json.bool (!valid && en == "ValueError"))]
+    | .error _ =>
+      let o ← field obsJ "ok"
+      let cum ← ratMat? (← field o "cum")
+      let perm ← natMat? (← field o "perm")
+      let chainObs ← ints? (← field o "chain")
+      let startIdx := rank sts startLabel
+      let model := (Mcmc.chain cum perm startIdx steps us).map (fun (i : Nat) => labelOf sts (i : Int))
+      let okCum := Mcmc.holdsCummat T cum perm
+      let okChain := Mcmc.holdsChain cum perm sts startIdx steps us chainObs
+      return Json.mkObj [("model", Json.mkObj [("ok", ofInts model)]), ("cum_ok", Json.bool okCum),
+        ("exact_cum", ofRatMat ((List.range T.length).map (fun i => Mcmc.cumRow (T.getD i []) (perm.getD i [])))),
+        ("holds", Json.bool (valid && okCum && okChain))]
+
+/-- C07: public `propagate_tmat(tmat, nsteps, start)` with injected draws -/
+def opTmatPublic (j : Json) : Except String Json := do
+  let T ← ratMat? (← field j "T")
+  let steps ← nat? (← field j "steps")
+  let start ← nat? (← field j "start")
+  let us ← rats? (← field j "us")
+  let stoch ← bool? (← field j "stochastic")
+  let obsJ ← field j "obs"
+  match obsJ.getObjVal? "err" with
+  | .ok e =>
+    let en ← str? e
+    return Json.mkObj [("model", Json.mkObj [("err", Json.str (if stoch then "none" else "ValueError"))]),
+      ("holds", Json.bool (!stoch && en == "ValueError"))]
+  | .error _ =>
+    let o ← field obsJ "ok"
+    let cum ← ratMat? (← field o "cum")
+    let perm ← natMat? (← field o "perm")
+    let chainObs ← nats? (← field o "chain")
+    let model := Mcmc.chain cum perm start steps us
+    let okCum := Mcmc.holdsCumTmat T cum perm
+    return Json.mkObj [("model", Json.mkObj [("ok", ofNats model)]), ("cum_ok", Json.bool okCum),
+      ("holds", Json.bool (stoch && okCum && chainObs == model))]
+
 def dispatch (j : Json) : Except String Json := do
   let op ← str? (← field j "op")
   match op with
@@ -102,6 +289,16 @@ def dispatch (j : Json) : Except String Json := do
   | "estimate" => opEstimate j
   | "md_wt" => opMdWt j
   | "md_paths" => opMdPaths j
+  | "cummat_judge" => opCummatJudge j
+  | "tmat_cum_judge" => opTmatCumJudge j
+  | "chain" => opChain j
+  | "mcmc_public" => opMcmcPublic j
+  | "tmat_public" => opTmatPublic j
+  | "msm_times" => opMsmTimes j
+  | "compare" => opCompare j
+  | "shift" => opShift j
+  | "rename" => opRename j
+  | "unique" => opUnique j
   | _ => throw s!"unknown op {op}"
 
 end MsmVerif.Driver
